@@ -62,4 +62,12 @@ C17c C17 StreamDecode3
 C18c C18 EncodeFinish
 C19c C19 NodeFloat64
 C20c C04 enc_string
+C01d C01 enc_tag_
+C02d C02 GetValidates
+C03d C03 enc_slice_ptrmarshaler
+C04d C04 enc_omit_float
+C06d C06 GetCopies
+C07d C07 PreorderTruncated
+C15d C15 BigObjectSort
+C17d C17 StreamDecode3
 TAB
